@@ -66,6 +66,22 @@ func NewAnalysis(p *Prog, fn *ssa.Function) *Analysis {
 	seen := map[int64]bool{}
 	for _, f := range withAnon(fn) {
 		allInstrs(f, func(in ssa.Instruction) {
+			// strides of counted loops (i += k) are moduli of interest too
+			if b, ok := in.(*ssa.BinOp); ok && b.Op == token.ADD {
+				if phi, isPhi := b.X.(*ssa.Phi); isPhi {
+					if c, ok := b.Y.(*ssa.Const); ok && c.Value != nil && intTypeInfo(b.Type()).ok {
+						if v, ok := constant.Int64Val(constant.ToInt(c.Value)); ok && v > 1 && v <= 64 && !seen[v] {
+							for _, e := range phi.Edges {
+								if e == ssa.Value(b) {
+									seen[v] = true
+									a.moduli = append(a.moduli, v)
+									break
+								}
+							}
+						}
+					}
+				}
+			}
 			if b, ok := in.(*ssa.BinOp); ok && b.Op == token.REM {
 				if c, ok := b.Y.(*ssa.Const); ok && c.Value != nil {
 					if v, ok := constant.Int64Val(constant.ToInt(c.Value)); ok && v > 1 && !seen[v] {
@@ -1220,10 +1236,29 @@ func (a *Analysis) congruences(st *State, l Lin) map[int64]int64 {
 			mk := mkBin(token.REM, e, mkConst(m, e.Typ), e.Typ, e.Typ)
 			r, has := st.rng[mk.Key]
 			if !has {
-				// maybe the atom itself has a constant range
-				if cv, isC := st.rangeOf(e).IsConst(); isC {
+				// maybe the atom itself has a constant range, or a small
+				// finite one whose members share a residue
+				ra := st.rangeOf(e)
+				if cv, isC := ra.IsConst(); isC {
 					sum = (sum + ((c*cv)%m+m)%m) % m
 					continue
+				}
+				if n := ra.count(); n > 0 && n <= 64 {
+					res, same := int64(-1), true
+					for _, iv := range ra {
+						for x := iv.Lo; x <= iv.Hi; x++ {
+							rr := ((x % m) + m) % m
+							if res < 0 {
+								res = rr
+							} else if res != rr {
+								same = false
+							}
+						}
+					}
+					if same {
+						sum = (sum + ((c*res)%m+m)%m) % m
+						continue
+					}
 				}
 				ok = false
 				break
